@@ -211,41 +211,61 @@ fn c13_get_and_has_key_single_key() {
 /// C13: map.get / map.has-key with further keys follow nested maps; the
 /// further keys may come as the rest arguments (with or without a trailing
 /// comma in the call), as a list, or as a single value.
-static K4: [lookup::Value; 1] = [lookup::Value::Atom(4)];
-static K5: [lookup::Value; 1] = [lookup::Value::Atom(5)];
-static K9: [lookup::Value; 1] = [lookup::Value::Atom(9)];
-static NOKEYS: [lookup::Value; 0] = [];
-fn rest(k: &'static [lookup::Value], has_named: bool) -> lookup::Value {
-    lookup::Value::ArgList(lookup::Args { positional: lookup::Keys(k), has_named, trailing_comma: kani::any() })
+const K4: &[u8] = &[4];
+const K5: &[u8] = &[5];
+const K9: &[u8] = &[9];
+const NOKEYS: &[u8] = &[];
+fn leaked(k: &[u8]) -> &'static [lookup::Value] {
+    let mut v = Vec::new();
+    let mut i = 0;
+    while i < k.len() {
+        v.push(lookup::Value::Atom(k[i]));
+        i += 1;
+    }
+    Box::leak(v.into_boxed_slice())
+}
+fn rest(k: &[u8], has_named: bool) -> lookup::Value {
+    lookup::Value::ArgList(lookup::Args { positional: lookup::Keys(leaked(k)), has_named, trailing_comma: kani::any() })
+}
+/// C13: a call with an EMPTY rest-argument list — `map.get($m, k)` as the
+/// evaluator passes it, with or without a trailing comma — is a one-key
+/// lookup.
+#[kani::proof]
+#[kani::unwind(6)]
+fn c13_get_with_empty_rest_arguments() {
+    use lookup::Value as V;
+    let m = lk_fixture();
+    assert!(lk_get(&m, 1, rest(NOKEYS, false)) == Some(V::Atom(10)), "no further keys (a call with or without trailing comma): the value itself");
+    assert!(lk_has(&m, 2, rest(NOKEYS, false)) == Some(V::True), "no further keys: the key itself");
 }
 #[kani::proof]
 #[kani::unwind(6)]
 fn c13_get_follows_further_keys() {
     use lookup::Value as V;
     let m = lk_fixture();
-    assert!(lk_get(&m, 3, rest(&K4, false)) == Some(V::Atom(40)), "get follows the further keys into the nested map");
-    assert!(lk_get(&m, 1, rest(&K4, false)) == Some(V::Null), "a further key below a non-map value: null");
-    assert!(lk_get(&m, 1, rest(&NOKEYS, false)) == Some(V::Atom(10)), "no further keys (a call with or without trailing comma): the value itself");
+    assert!(lk_get(&m, 3, rest(K4, false)) == Some(V::Atom(40)), "get follows the further keys into the nested map");
+    assert!(lk_get(&m, 1, rest(K4, false)) == Some(V::Null), "a further key below a non-map value: null");
+    assert!(lk_get(&m, 1, rest(NOKEYS, false)) == Some(V::Atom(10)), "no further keys (a call with or without trailing comma): the value itself");
 }
 #[kani::proof]
 #[kani::unwind(6)]
 fn c13_has_key_follows_further_keys() {
     use lookup::Value as V;
     let m = lk_fixture();
-    assert!(lk_has(&m, 3, rest(&K5, false)) == Some(V::True), "nested key with a null value: has-key is true");
-    assert!(lk_has(&m, 3, rest(&K9, false)) == Some(V::False), "nested key missing: false");
-    assert!(lk_has(&m, 1, rest(&K4, false)) == Some(V::False), "a further key below a non-map value: false");
-    assert!(lk_has(&m, 2, rest(&NOKEYS, false)) == Some(V::True), "no further keys: the key itself");
+    assert!(lk_has(&m, 3, rest(K5, false)) == Some(V::True), "nested key with a null value: has-key is true");
+    assert!(lk_has(&m, 3, rest(K9, false)) == Some(V::False), "nested key missing: false");
+    assert!(lk_has(&m, 1, rest(K4, false)) == Some(V::False), "a further key below a non-map value: false");
+    assert!(lk_has(&m, 2, rest(NOKEYS, false)) == Some(V::True), "no further keys: the key itself");
 }
 #[kani::proof]
 #[kani::unwind(6)]
 fn c13_get_further_keys_as_list_or_single_value() {
     use lookup::{Keys, Value as V};
     let m = lk_fixture();
-    assert!(lk_get(&m, 3, V::List(Keys(&K4), None, false)) == Some(V::Atom(40)), "keys given as a list");
+    assert!(lk_get(&m, 3, V::List(Keys(leaked(K4)), None, false)) == Some(V::Atom(40)), "keys given as a list");
     assert!(lk_get(&m, 3, V::Atom(4)) == Some(V::Atom(40)), "a single further key");
     assert!(lk_has(&m, 3, V::Atom(9)) == Some(V::False));
-    assert!(lookup::snippet_get(&m, V::Atom(1), rest(&NOKEYS, true)).is_err(), "named rest arguments are rejected");
+    assert!(lookup::snippet_get(&m, V::Atom(1), rest(NOKEYS, true)).is_err(), "named rest arguments are rejected");
 }
 
 #[kani::proof]
